@@ -211,6 +211,7 @@ PROPS["C09"] = dict(
         R("C09.mtu_honest", "swarms", "TestC09MTU", 400, 40000, shrink=10, quick=dict(checks=400, shards=4, timeout=600)),
         R("C09.mux_several_channels", "swarms", "TestC09MuxChannels", 200, 25000, shrink=10),
         R("C09.ssh_boundary", "swarms", "TestC09SSH", 80, 4000),
+        R("C09.fragment_boundaries", "swarms", "TestC09FragmentBoundaries", 150, 10000, shrink=10),
     ],
 )
 
